@@ -302,9 +302,30 @@ func rowidRule(c *Ctx, rule, wname string, addRow *ssa.Function, typ *types.Name
 		}
 		return false
 	}
+	// a return that can be successful: its error is the nil constant, or a value not known to be non-nil there (the
+	// result of a helper handed on directly: `return rowID, idx.rotate()` succeeds whenever the helper does)
 	isOKReturn := func(i ssa.Instruction) bool {
 		ret, ok := i.(*ssa.Return)
-		return ok && len(ret.Results) == 2 && !isRecoverBlockReturn(ret) && isNilConst(retVals(ret)[1])
+		if !ok || len(ret.Results) != 2 || isRecoverBlockReturn(ret) {
+			return false
+		}
+		ev := retVals(ret)[1]
+		if isNilConst(ev) {
+			return true
+		}
+		if knownNonNil(ev, ret) {
+			return false
+		}
+		if call, isCall := ev.(*ssa.Call); isCall {
+			switch calleeName(&call.Call) {
+			case "fmt.Errorf", "errors.New":
+				return false
+			}
+		}
+		if _, isMI := ev.(*ssa.MakeInterface); isMI {
+			return false // a concrete error value
+		}
+		return true
 	}
 	if wpath := c.fc.pathAvoiding(addRow, nil, isOKReturn, isInc); wpath != nil {
 		c.r.bad(rule, wname+": once", "a successful return of AddRow is reachable without incrementing the row counter: the next row reuses the id", []string{c.w.ipos(wpath[len(wpath)-1])}, c.fc.witnessStrings(wpath)...)
